@@ -938,6 +938,24 @@ where
         if !seen_cond && seen_if {
             // This is the condition expression - keep it flat (don't break inside)
             // We use group() on the condition to try to keep it on one line
+            // A condition that does not start with `(` must not be glued to the keyword (`if x` is not `ifx`).
+            let mut first = child;
+            let starts_with_paren = loop {
+                match ctx.arena.get(first) {
+                    mimium_lang::compiler::parser::green::GreenNode::Token { token_index, .. } => {
+                        break ctx.tokens[*token_index].kind == TokenKind::ParenBegin;
+                    }
+                    mimium_lang::compiler::parser::green::GreenNode::Internal { children, .. } => {
+                        match children.first() {
+                            Some(&c) => first = c,
+                            None => break false,
+                        }
+                    }
+                }
+            };
+            if !starts_with_paren {
+                result = result.append(allocator.space());
+            }
             result = result.append(child_doc.group());
             seen_cond = true;
         } else if !seen_then && seen_cond {
